@@ -41,7 +41,11 @@ Types0(c) == << [name |-> "colour", k |-> "enum", items |-> <<"red_green", "red"
                    \* a select one of whose items is a select (a value is still written with the keyword of the defined type it has)
                    [name |-> "npick", k |-> "select", items |-> <<>>, members |-> <<"pick", "colour">>, base |-> T("")] >>)
 (* the single-entity schema has no select either: nothing in it names the entity but its own declaration          *)
-Types(c) == IF c.inh = "single" THEN SelectSeq(Types0(c), LAMBDA t : t.name \notin {"pick", "pick2", "npick"}) ELSE Types0(c)
+(* "noents": a support schema - no entity, no enumeration, no select, only names for simple types and aggregates  *)
+(* (types that generate no class of their own; the per-schema files must exist all the same)                        *)
+Types(c) == IF c.inh = "single" THEN SelectSeq(Types0(c), LAMBDA t : t.name \notin {"pick", "pick2", "npick"})
+            ELSE IF c.inh = "noents" THEN SelectSeq(Types0(c), LAMBDA t : t.name \in {"lab", "cnt", "ilist", "nest"})
+            ELSE Types0(c)
 (* (the enumeration declares an item before a proper prefix of it and another after one: a reader that matches    *)
 (* item names by prefix, or in declaration order without comparing lengths, confuses them)                         *)
 (* type shapes (choice field ts): "base" = the types above only; "aggs" = one named type and one attribute per      *)
@@ -96,7 +100,7 @@ RootAttrs(ak) ==
 Ent(n, sup, abs, sx, attrs) == [name |-> n, supers |-> sup, abstract |-> abs, sexpr |-> sx, attrs |-> attrs,
                                 derive |-> <<>>, inverse |-> <<>>, uniq |-> <<>>, where |-> <<>>, redecl |-> <<>>]
 Supers(c, e) ==
-  CASE c.inh \in {"none", "single"} -> <<>>
+  CASE c.inh \in {"none", "single", "noents"} -> <<>>
     [] c.inh \in {"chain", "redecl"} -> IF e = "e2" THEN <<"e1">> ELSE IF e = "e3" THEN <<"e2">> ELSE <<>>
     [] c.inh = "multi"   -> IF e = "e2" THEN <<"e1">> ELSE IF e = "e3" THEN <<"e1">> ELSE IF e = "e4" THEN <<"e2", "e3">> ELSE <<>>
     [] c.inh = "fan"     -> IF e \in {"e2", "e3"} THEN <<"e1">> ELSE <<>>
@@ -106,12 +110,12 @@ Supers(c, e) ==
     [] c.inh = "nestedmi" -> IF e = "e2" THEN <<"e1">> ELSE IF e = "e3" THEN <<"r2", "r3">> ELSE IF e = "e4" THEN <<"e2", "e3">>
                              ELSE IF e = "e5" THEN <<"e4">> ELSE <<>>
 RootExpr(c) ==
-  IF c.sx = "none" \/ c.inh \in {"none", "single", "chain", "redecl", "tworoots", "nestedmi"} THEN NoTree
+  IF c.sx = "none" \/ c.inh \in {"none", "single", "noents", "chain", "redecl", "tworoots", "nestedmi"} THEN NoTree
   ELSE Op(c.sx, <<Leaf("e2"), Leaf("e3")>>)
 Names0(c) == IF c.inh = "multi" THEN <<"e1", "e2", "e3", "e4">>
             ELSE IF c.inh = "tworoots" THEN <<"e1", "e2", "r2", "e3", "e4", "h">>
             ELSE IF c.inh = "nestedmi" THEN <<"e1", "e2", "r2", "r3", "e3", "e4", "e5", "h">>
-            ELSE IF c.inh = "single" THEN <<"e1">> ELSE <<"e1", "e2", "e3">>
+            ELSE IF c.inh = "single" THEN <<"e1">> ELSE IF c.inh = "noents" THEN <<>> ELSE <<"e1", "e2", "e3">>
 (* with rules: also an entity without supertype and without explicit attribute whose only attribute is an INVERSE one *)
 (* (tgt0), and the entity it is used by (usr0)                                                                      *)
 Names(c) == Names0(c) \o (IF c.rules THEN <<"tgt0", "usr0">> ELSE <<>>)
@@ -126,7 +130,10 @@ WithRules(c, e) ==
 (* shape "redecl": the chain e1 <- e2 <- e3 in which e3 redeclares the reference attribute it inherits from e2 with a  *)
 (* narrower entity type (SELF\e2.b1 : e2) and declares an attribute of its own after it.  In an exchange file the    *)
 (* value still stands at the inherited position; nothing is added to the parameter list.                              *)
-WithRedecl(c, e) == IF c.inh = "redecl" /\ e.name = "e3" THEN [e EXCEPT !.redecl = <<[name |-> "b1", of |-> "e2", ty |-> T("e2")]>>] ELSE e
+(* ... and redeclares the OPTIONAL attribute b2 as a required one (a redeclaration may narrow OPTIONAL away)          *)
+WithRedecl(c, e) == IF c.inh = "redecl" /\ e.name = "e3"
+                    THEN [e EXCEPT !.redecl = <<[name |-> "b1", of |-> "e2", ty |-> T("e2"), opt |-> FALSE],
+                                                [name |-> "b2", of |-> "e2", ty |-> T("STRING"), opt |-> FALSE]>>] ELSE e
 Valid0(c) ==
   [name |-> "m",
    types |-> Types(c) \o (IF c.inh = "single" THEN SelectSeq(ExtraTypes(c.ts), LAMBDA t : t.name # "lst_sel") ELSE ExtraTypes(c.ts)),
@@ -195,6 +202,7 @@ Choices(deep) ==
   \* three schemas: m takes remote_e / remote_t from aux by name, aux has them only because it USEs aux2 as a whole
   \cup {[inh |-> "chain", sx |-> "none", abs |-> FALSE, ak |-> 2, rules |-> r, aux |-> TRUE, ts |-> [k |-> "base"], chain3 |-> TRUE] : r \in BOOLEAN}
   \cup {[inh |-> "redecl", sx |-> "none", abs |-> FALSE, ak |-> k, rules |-> FALSE, aux |-> FALSE, ts |-> [k |-> "base"]] : k \in {2, 3}}
+  \cup {[inh |-> "noents", sx |-> "none", abs |-> FALSE, ak |-> 2, rules |-> FALSE, aux |-> FALSE, ts |-> [k |-> "base"]]}
   \* a schema with exactly one entity (and the named types, among them aggregates): whatever the generators keep
   \* per "previous entity" or per "first entity" has only this one to work with
   \cup {[inh |-> "single", sx |-> "none", abs |-> FALSE, ak |-> k, rules |-> FALSE, aux |-> FALSE, ts |-> t] :
